@@ -2,7 +2,7 @@
    Statements only; proofs are in Config/*_proofs.v, concrete instances in Config/Witness.v.
    The model is of the code with fixes/C15-*.patch applied (each defect was first exhibited as a
    refuted statement and replayed on the real library, see docs/C15.md). *)
-From CAres.Config Require Import Spec Vif HostsSpec Lines_proofs Total_proofs Ranges_proofs Chan_ranges Hosts_proofs Witness.
+From CAres.Config Require Import Spec Vif HostsSpec Lines_proofs Total_proofs Ranges_proofs Chan_ranges Hosts_proofs Witness Lookup_proofs.
 From CAres.Gen Require Import Consts.
 From Coq Require Import String.
 Local Open Scope string_scope.
@@ -103,6 +103,23 @@ Print Assumptions C15_sortlist_pinned_refuted.
 Theorem C15_ranges : forall nf ifs e s, read_sysconfig nf ifs e = Ok s -> sys_in_range s.
 Proof. exact read_sysconfig_range. Qed.
 Print Assumptions C15_ranges.
+
+(* the lookup order ("lookup" / "hostresorder" / "hosts:" lines): for ANY list of words the loop
+   filling char lookupstr[32] neither overruns the array nor fails, and what it leaves is a string
+   over 'b' and 'f' naming every source at most once (at most two characters) *)
+Theorem C15_lookup_order_range : forall vals acc, lookup_ok acc ->
+  exists ls, lookup_fold vals acc = Ok ls /\ lookup_ok ls /\ (List.length ls <= 2)%nat.
+Proof.
+  intros vals acc H. destruct (lookup_fold_ok vals acc H) as (ls & E & Hl).
+  exists ls. split; [exact E | split; [exact Hl | exact (lookup_ok_short ls Hl)]].
+Qed.
+Print Assumptions C15_lookup_order_range.
+
+Theorem C15_config_lookup_range : forall cfg buf seps,
+  lookups_ok (s_lookups cfg) ->
+  exists cfg', config_lookup cfg buf seps = Ok cfg' /\ lookups_ok (s_lookups cfg').
+Proof. exact config_lookup_range. Qed.
+Print Assumptions C15_config_lookup_range.
 
 (* ... and a channel returned by ares_init_options has a positive timeout and try count, at
    least one server and a lookup order (ARES_CONFIG_CHECK); ndots not set by the application is
